@@ -281,6 +281,12 @@ pub fn run(opts: &Opts) -> i32 {
         test(&mut out, vec![format!("{}?", c)], "scalar_next_to_an_escape");
         test(&mut out, vec![format!("\u{7}{}\u{7f}", c)], "scalar_next_to_an_escape");
       }
+      // ... and at either end of a pattern that is NOT the last of its list (what separates two --exclude
+      // arguments must not depend on how a pattern ends or begins)
+      if !aux || cp % 7 == 0 {
+        test(&mut out, vec![c.to_string(), "b".to_string()], "scalar_in_a_list_position");
+        test(&mut out, vec![format!("a{}", c), format!("{}b", c), "c".to_string()], "scalar_in_a_list_position");
+      }
     }
     cp += opts.nshards as u32;
   }
